@@ -1,6 +1,7 @@
 """C16 - NotifierDelay: the k-th wait() returns at max(t0 + k*P, end of the loop body), alarms stay on the grid."""
 from __future__ import annotations
 
+import os
 import random
 import threading
 import time
@@ -103,6 +104,8 @@ def run_threaded(acc, case):
         done.release()
         for k in range(len(bodies)):
             go.acquire()
+            if stage.get("stop"):
+                break                  # (a marathon that used up its wall-clock budget: the harness judges what ran so far)
             stage["k"] = k
             d.wait()
             rets.append(e.now())
@@ -188,7 +191,15 @@ def run_threaded(acc, case):
         seen["i"] = n
         return seen["n"]
 
+    budget = case.get("wall_budget_s")
+    t_wall0 = time.time()
+    truncated = None
     for k, body in enumerate(bodies):
+        if budget and k % 128 == 0 and time.time() - t_wall0 > budget:
+            # a marathon is bounded by wall-clock time as well (a loaded machine needs several ms per hand-over between the
+            # two threads): what was judged so far stands, the number of waits judged is recorded
+            truncated = k
+            break
         e.advance(body)
         body_end = e.now()
         n_wait_before = n_waits()
@@ -245,6 +256,12 @@ def run_threaded(acc, case):
             acc.ev("wait-on-time")
         if k and body_end > want and rets[k - 1] > t0 + k * P:
             acc.ev("catch-up-wait")
+    if truncated is not None:
+        stage["stop"] = True
+        go.release()               # the worker leaves its loop instead of waiting once more
+        bodies = bodies[:truncated]
+        acc.ev("marathon-stopped-at-its-wall-clock-budget")
+    case["_waits_judged"] = len(bodies)
     # ---- the alarm series stays on the grid
     al = alarms()
     acc.checks += len(al)
@@ -365,19 +382,23 @@ def run_shard(spec):
     for i in range(spec["n"]):
         case = gen_case(rng)
         if spec.get("marathon"):
-            case.update({"P": 20000, "bodies": [0] * spec["marathon"], "use_with": True, "exit_exc": False})
-            acc.ev("marathon-of-waits", spec["marathon"])
+            case.update({"P": 20000, "bodies": [0] * spec["marathon"], "use_with": True, "exit_exc": False,
+                         "wall_budget_s": float(os.environ.get("VF_MARATHON_BUDGET_S") or (150 if spec.get("tier") == "quick" else 900))})
         if spec.get("start_at"):
             case["start_at"] = spec["start_at"]
             case["P"] = max(case["P"], 20000)
             acc.ev("clock-around-2^32us" if spec["start_at"] < 2 ** 33 else "fpga-time-of-many-hours")
+        t_shard0 = time.time()
         r = run_threaded(acc, case)
         for _retry in range(2):
-            if r is None or not spec.get("marathon") or acc.violations:
+            if r is None or not spec.get("marathon") or acc.violations or time.time() - t_shard0 > case["wall_budget_s"]:
                 break
             acc.ev("marathon-restarted-after-lost-wakeup")       # the one long run is worth a second and third attempt
             acc.extra.setdefault("marathon_restarts", []).append(r[1])
             r = run_threaded(acc, case)
+        if spec.get("marathon"):
+            acc.ev("marathon-of-waits", case.get("_waits_judged", 0))
+            acc.extra["marathon_waits_judged"] = case.get("_waits_judged", 0)
         if r is not None and spec.get("marathon"):
             # three attempts lost a wake-up somewhere in 70 000 waits (loaded machine): recorded, no verdict from this run
             acc.ev("marathon-gave-no-verdict")
@@ -402,5 +423,7 @@ def replay(pid, case):
         # of the history of this one
         run_convert(acc, {"lo": max(1000, case["n"] - 9), "hi": case["n"], "stride": 1, "offset": 0})
     else:
+        if case.get("wall_budget_s"):
+            case = dict(case, wall_budget_s=max(case["wall_budget_s"], 240))       # (a replay runs alone and may take longer)
         run_threaded(acc, case)
     return acc.violations[0] if acc.violations else None
